@@ -113,8 +113,17 @@ func (fs *filestore) Add(bucket string, filename string, contents []byte, meta *
 }
 
 func (fs *filestore) UpdateMeta(bucket string, filename string, meta *storage.Object, metagen int64) error {
+	existing, err := fs.GetMeta(dontNeedUrls, bucket, filename)
+	if err != nil {
+		return err
+	}
+	if existing == nil {
+		return os.ErrNotExist
+	}
 	InitScrubbedMeta(meta, filename)
 	meta.Metageneration = metagen
+	// Cannot be overridden by caller
+	meta.Md5Hash = existing.Md5Hash
 
 	fMeta := metaFilename(fs.filename(bucket, filename))
 	if err := os.WriteFile(fMeta, mustJson(meta), 0666); err != nil {
